@@ -8,6 +8,9 @@ CHECKS = {
     "C02": ("bounded-exhaustive enumeration of generated programs; independent lexer + named canonicalisation rules, token-by-token comparison",
             "for every program of model G within the bounds the regenerated text carries exactly the source's token sequence (names, literals, labels character for character) up to the canonicalisation rules listed in mc/normalise.py",
             _NOTE + "; the canonicalisation rule list (DESIGN.md 4/C02)", "DESIGN.md 4/C02"),
+    "C04": ("bounded-exhaustive enumeration of layouts (deviation-bounded choice exploration over the layout model) of generated programs, reader items compared with a stream model and trees with the canonical layout's tree",
+            "for every corpus and template program every layout within the deviation bound (continuation at every token boundary x style, breaks inside every character literal, extra blanks, comment/blank lines, trailing comments, ';' joins, indentation, keyword case) gives the reader items the model predicts and the same parse tree as the canonical layout",
+            _NOTE, "DESIGN.md 4/C04"),
     "C10": ("bounded-exhaustive enumeration of generated programs; structural invariants evaluated on every node of every tree (first parse and re-parse)",
             "every tree produced for model G within the bounds (both standards, comments kept/dropped, plus backtracking-heavy inputs) satisfies the parent/children/get_root/walk invariants on every node",
             _NOTE, "DESIGN.md 4/C10"),
